@@ -114,3 +114,46 @@ func (w *world) specOf(t *types.Transaction) (TxSpec, bool) {
 	s, ok := w.byHash[t.Hash()]
 	return s, ok
 }
+
+func (w *world) resetCache() {
+	w.mu.Lock()
+	defer w.mu.Unlock()
+	w.cache = map[TxSpec]*types.Transaction{}
+	w.byHash = map[common.Hash]TxSpec{}
+}
+
+// badTx builds a transaction the pool must refuse without touching its state:
+// "chainid": signed for another chain id; "zone": signed by a key whose address is not a
+// Quai address of this zone; "external": an ExternalTx.
+func (w *world) badTx(kind string) *types.Transaction {
+	to := w.to
+	switch kind {
+	case "chainid":
+		other := big.NewInt(4242)
+		inner := &types.QuaiTx{ChainID: other, Nonce: 0, GasPrice: big.NewInt(10), Gas: 21000, To: &to, Value: big.NewInt(1)}
+		t, err := types.SignTx(types.NewTx(inner), types.NewSigner(other, zoneLoc), w.accts[0].key)
+		if err != nil {
+			panic(err)
+		}
+		return t
+	case "zone":
+		for i := 0; ; i++ {
+			k, err := crypto.ToECDSA(crypto.Keccak256([]byte(fmt.Sprintf("verif-c19-foreign-%d", i))))
+			if err != nil {
+				continue
+			}
+			a := crypto.PubkeyToAddress(k.PublicKey, zoneLoc)
+			if _, err := a.InternalAndQuaiAddress(); err == nil {
+				continue
+			}
+			inner := &types.QuaiTx{ChainID: chainID, Nonce: 0, GasPrice: big.NewInt(10), Gas: 21000, To: &to, Value: big.NewInt(1)}
+			t, err := types.SignTx(types.NewTx(inner), w.signer, k)
+			if err != nil {
+				panic(err)
+			}
+			return t
+		}
+	default:
+		return types.NewTx(&types.ExternalTx{Gas: 21000, To: &to, Value: big.NewInt(1), Sender: w.accts[0].addr})
+	}
+}
